@@ -1,9 +1,12 @@
 """C24 - No lost or stale hardware writes after an outage.
 
-The real ErrorRecoveryDecorator wraps a recording fake; `hardware_recovery.time` is a virtual clock.  Every commanded
-value is unique per (register, change) and encodes the index of the cycle in which it was first commanded, so each
-hardware-level write identifies the command cycle it stems from.  Deciding observations are taken at the fake only:
- (i)  per register, the cycle indices of the values that reach the hardware never decrease;
+The real ErrorRecoveryDecorator wraps a recording fake; `hardware_recovery.time` is a virtual clock.  Every *new*
+commanded value is unique per (register, change) and encodes the index of the cycle in which it was created; the
+harness keeps, per register, the history of commanded values as value epochs (an epoch = consecutive cycles that
+command the same value), so each hardware-level write identifies the command epoch it stems from - also when the
+re-command symbols bring an earlier value back (the write is then attributed to the latest epoch with that value).
+Deciding observations are taken at the fake only:
+ (i)  per register, the epoch indices of the values that reach the hardware never decrease;
  (ii) after every write cycle that returned without exception, with the decorator in OK and in which the fake raised
       nothing, the fake's register file holds the most recently commanded value of every register.
 Decorator internals (pending_writes) are read only to *name the mechanism* of a violation, never to decide one.
@@ -29,7 +32,10 @@ RULE = ("all sequences of exactly length L (all prefixes are checked, so 'length
         "write/read failure, toggle failure of every register but the first (>= 2 registers), advance past "
         "reconnect_timeout, tick with reconnect ok, tick with reconnect fail, [thorough: advance past error_timeout, "
         "successful/failing read cycle]}; 1-3 registers; only_write_modified_values on/off; write_batch and per-register "
-        "write. Deep starts: for each fixed prefix in DEEP_PREFIXES (Issue, Issue with a partly written batch, Issue on the "
+        "write. Re-command family: the same from OK plus the cycle symbols Cr (every register commands again the value "
+        "last written successfully to the hardware for it) and Cb (every register commands again the value it commanded "
+        "before its current one), so that a commanded value can return to an earlier one during / after a failure. "
+        "Deep starts: for each fixed prefix in DEEP_PREFIXES (Issue, Issue with a partly written batch, Issue on the "
         "reconnect boundary, Reconnect just entered / on the error boundary, each with and without buffered values, Error "
         "with and without buffered values) all suffixes of exactly length L over {the cycle symbols, F, P, advance 1 s, "
         "tick with reconnect ok/fail, read cycle} with reconnect_timeout = 1 s and error_timeout = 2 s, so that k advance "
@@ -43,6 +49,10 @@ ASSUMPTIONS = [
     "'never written after a newer value' = per register the first-commanded cycle index of successive successful "
     "hardware writes is non-decreasing",
     "values are ints, so the float tolerance of filter_write_values plays no role",
+    "with re-commanded values a hardware write of value v is attributed to the LATEST value epoch of the register that "
+    "commanded v: it cannot be told from a write of that command and leaves the hardware in the state that command "
+    "asked for, so only a write whose every possible source epoch is older than the newest epoch already written "
+    "counts as 'written after a newer value'; rule (ii) is unchanged (register file = last commanded values)",
     "a sequence is abandoned at its first violation (later effects would be consequences of it)",
     "inspect.getmembers_static, called twice by every ErrorRecoveryDecorator constructor to forward extra public methods "
     "of the concrete hardware (irrelevant here: the fake has none), is memoised per (class, instance attribute names) from "
@@ -58,7 +68,10 @@ REQUIRED = {"sequences": 50000, "clean_cycle_checks": 100000, "hw_writes_checked
             "deep_start:reconnect": 50000, "deep_start:reconnect_late": 50000, "deep_start:reconnect_nopend": 50000,
             "deep_start:reconnect_nopend_late": 50000, "deep_start:error": 50000, "deep_start:error_nopend": 50000,
             "cycles_entering_error_with_new_value": 50000, "recoveries_from_error_then_clean_cycle": 5000,
-            "recoveries_after_error_entered_with_new_value_then_2_clean_cycles": 500, "inspect_memo_verified": 16}
+            "recoveries_after_error_entered_with_new_value_then_2_clean_cycles": 500, "inspect_memo_verified": 16,
+            "recommand_alphabet_sequences": 400000, "cycles_recommanding_last_written_value": 20000,
+            "cycles_recommanding_previous_value": 40000, "recommand_while_other_value_buffered": 40000,
+            "recommand_during_outage": 40000, "hw_writes_of_a_recommanded_value": 15000}
 EXHAUSTIVE_ALL = True
 
 T0 = 1_700_000_000.0
